@@ -30,7 +30,9 @@ clause → theorem
 * disconnect callbacks run exactly once per accepted connection,
   on every exit path, after all its connect callbacks ......... `trace_shape`, `disconnect_exactly_once`,
                                                                `no_disconnect_while_live`, `exit_paths_reach_done`
-* never for a connection whose handshake failed ................ `handshake_failure_no_hooks`
+* never for a connection whose handshake failed ................ `handshake_failure_no_hooks`; which upgrades fail the path check:
+                                                               `path_validator_accepts_exactly_normalised`, `path_validator_root`,
+                                                               `normalize_path_shape`
 * cancel precedes the disconnect callbacks ...................... `cancel_before_disconnect_hooks`
 * handlers still running when the connection ends observe
   cancellation .................................................. `running_handlers_see_cancel`
@@ -396,6 +398,70 @@ example : run (withFacts { Facts.good with writerBeforeGuard := false }) init
 /-- no `AbortOnDrop`: an aborted task leaves its writer running -/
 example : (run (withFacts { Facts.good with abortOnDrop := false }) init (hooksOk ++ [.abort])).map
     (fun s => (s.phase, s.writer)) = some (.done, .signalled) := by decide
+
+/-! ### which handshakes are accepted: `normalize_path` + `WebSocketPathValidator` -/
+
+/-- The model of the path check and of the error report is the code's: the validator answers `Ok` exactly
+under `request.uri().path() == self.expected`, `normalize_path` has the three modelled branches, and
+`accept_and_serve` reports once per outcome (re-extracted from the source on every run). -/
+theorem handshake_source_forms :
+    Gen.Lifecycle.pathCheckExact = true ∧ Gen.Lifecycle.normalizeThreeBranches = true ∧
+    Gen.Lifecycle.oneErrorReportPerOutcome = true := by decide
+
+/-- **Path validator.**  Every spelling of a configured path `b` — with or without the leading slash,
+with any number of trailing slashes — accepts exactly the request path `/b` (compared verbatim: a
+request for `/b/` is rejected), so exactly those upgrades become accepted connections with hooks. -/
+theorem path_validator_accepts_exactly_normalised (b : List Char) (hb0 : b ≠ []) (hh : b.head? ≠ some '/')
+    (hl : b.getLast? ≠ some '/') (lead : Bool) (k : Nat) (req : List Char) :
+    pathAccepted ((if lead then ['/'] else []) ++ b ++ List.replicate k '/') req = true ↔ req = '/' :: b := by
+  have key : normalizePath ((if lead then ['/'] else []) ++ b ++ List.replicate k '/') = '/' :: b := by
+    obtain ⟨x, xs, rfl⟩ := List.exists_cons_of_ne_nil hb0
+    have hx : x ≠ '/' := by simpa using hh
+    cases lead with
+    | true =>
+      have hl' : ('/' :: x :: xs).getLast? ≠ some '/' := by simpa [List.getLast?_cons_cons] using hl
+      have := trimSlashes_append_replicate ('/' :: x :: xs) k hl'
+      simp only [List.cons_append, List.nil_append, if_true] at this ⊢
+      simp [normalizePath, this]
+    | false =>
+      have := trimSlashes_append_replicate (x :: xs) k hl
+      simp only [List.cons_append, List.nil_append] at this ⊢
+      simp [normalizePath, this, hx]
+  unfold pathAccepted
+  rw [key]
+  simp
+
+/-- the root: an empty or `/` configured path accepts exactly `/` -/
+theorem path_validator_root (req : List Char) :
+    (pathAccepted [] req = true ↔ req = ['/']) ∧ (pathAccepted ['/'] req = true ↔ req = ['/']) := by
+  simp [pathAccepted, normalizePath]
+
+/-- what `normalize_path` can return: `/`, or something that starts with `/` and does not end with one,
+or — only for a configured path made of two or more slashes — the empty string, which no request path
+equals (such a server accepts nothing; recorded in notes/C15.md, harmless for the property). -/
+theorem normalize_path_shape (p : List Char) :
+    normalizePath p = ['/'] ∨ normalizePath p = [] ∨
+    ((normalizePath p).head? = some '/' ∧ (normalizePath p).getLast? ≠ some '/') := by
+  unfold normalizePath
+  split
+  · exact Or.inl rfl
+  · split
+    · rename_i hh
+      cases ht : trimSlashes p with
+      | nil => exact Or.inr (Or.inl rfl)
+      | cons x xs =>
+        have hx := trimSlashes_head p x xs ht
+        rw [hh] at hx
+        refine Or.inr (Or.inr ⟨by simpa using hx.symm, ht ▸ trimSlashes_no_trailing p⟩)
+    · cases ht : trimSlashes p with
+      | nil => exact Or.inl rfl
+      | cons x xs =>
+        refine Or.inr (Or.inr ⟨rfl, ?_⟩)
+        rw [List.getLast?_cons_cons, ← ht]
+        exact trimSlashes_no_trailing p
+
+example : pathAccepted "repe/".toList "/repe".toList = true ∧ pathAccepted "/repe".toList "/repe/".toList = false ∧
+    normalizePath "//".toList = [] ∧ normalizePath "a/b//".toList = "/a/b".toList := by decide
 
 /-! ### composition with C16: a parked off-reader handler holding a permit when the connection ends
 
